@@ -251,8 +251,18 @@ class Repo:
                 seqs = [[x for x in s if x[1] is not cand[1]] for s in seqs]
                 seqs = [s for s in seqs if s]
             return res
-        bs = self.bases(mod, cls)
-        return [(mod, cls)] + merge([self.mro(bm, bc) for bm, bc in bs] + [bs])
+        if not hasattr(self, "_mro_cache"):
+            self._mro_cache, self._mro_active = {}, set()
+        if id(cls) in self._mro_cache:
+            return self._mro_cache[id(cls)]
+        if id(cls) in self._mro_active:
+            return [(mod, cls)]
+        self._mro_active.add(id(cls))
+        bs = [(bm, bc) for bm, bc in self.bases(mod, cls) if bc is not cls]
+        res = [(mod, cls)] + merge([self.mro(bm, bc) for bm, bc in bs] + [bs])
+        self._mro_active.discard(id(cls))
+        self._mro_cache[id(cls)] = res
+        return res
 
     def class_attr(self, mod: Module, cls: ast.ClassDef, name: str) -> Optional[Tuple[Module, ast.ClassDef, ast.AST]]:
         """resolve attribute `name` (method def or class-body assignment value) through the MRO"""
